@@ -17,12 +17,12 @@ import (
 	"github.com/mholt/caddy-l4/modules/l4http"
 	"github.com/mholt/caddy-l4/modules/l4openvpn"
 	"github.com/mholt/caddy-l4/modules/l4postgres"
-	"github.com/mholt/caddy-l4/modules/l4rdp"
-	"github.com/mholt/caddy-l4/modules/l4winbox"
 	"github.com/mholt/caddy-l4/modules/l4proxyprotocol"
+	"github.com/mholt/caddy-l4/modules/l4rdp"
 	"github.com/mholt/caddy-l4/modules/l4regexp"
 	"github.com/mholt/caddy-l4/modules/l4socks"
 	"github.com/mholt/caddy-l4/modules/l4ssh"
+	"github.com/mholt/caddy-l4/modules/l4winbox"
 	"github.com/mholt/caddy-l4/modules/l4wireguard"
 	"github.com/mholt/caddy-l4/modules/l4xmpp"
 
@@ -316,7 +316,7 @@ func VH_ip() {
 func VH_clock() {
 	type cfg struct {
 		after, before, tz string
-		lo, hi, off     int // reference window [lo,hi) in seconds of day, zone offset east of UTC
+		lo, hi, off       int // reference window [lo,hi) in seconds of day, zone offset east of UTC
 	}
 	cfgs := []cfg{
 		{"08:00:00", "17:30:00", "", 8 * 3600, 17*3600 + 1800, 0},
@@ -474,8 +474,10 @@ func winbox(m *l4winbox.MatchWinbox, wantRomon int, wantUser string, what string
 	iff(matched, framed && parityOK && okName && modeOK && userOK, what)
 }
 
-func VH_winbox()       { winbox(&l4winbox.MatchWinbox{}, -1, "", "winbox") }
-func VH_winbox_romon() { winbox(&l4winbox.MatchWinbox{Modes: []string{"romon"}}, 1, "", "winbox romon only") }
+func VH_winbox() { winbox(&l4winbox.MatchWinbox{}, -1, "", "winbox") }
+func VH_winbox_romon() {
+	winbox(&l4winbox.MatchWinbox{Modes: []string{"romon"}}, 1, "", "winbox romon only")
+}
 func VH_winbox_user() {
 	winbox(&l4winbox.MatchWinbox{Modes: []string{"standard"}, Username: "ab"}, 0, "ab", "winbox with user name")
 }
@@ -504,6 +506,48 @@ func ovpnPlain(udp bool) {
 	}
 	iff(matched, wf, "openvpn plain")
 }
+
+// OpenVPN tls-auth client hard reset (no key configured, so the HMAC is not verified):
+// opcode 7 / key 0, session id != 0, an HMAC whose length is a supported digest size,
+// replay packet id 1, a net_time within +-15 s of now unless ignored, no acks, packet id 0.
+func ovpnAuth(udp bool, ignoreTS bool) {
+	m := &l4openvpn.MatchOpenVPN{Modes: []string{"auth"}, IgnoreTimestamp: ignoreTS}
+	d := vapi.Bytes("D", 2+22+64+1)
+	now := time.Now()
+	sec, ns := now.Unix(), now.Nanosecond()
+	matched := run(m, d, udp)
+	body := d
+	lenOK := true
+	if !udp {
+		lenOK = len(d) >= 2 && int(d[0])<<8|int(d[1]) == len(d)-2
+		if len(d) >= 2 {
+			body = d[2:]
+		}
+	}
+	wf := false
+	h := len(body) - 22
+	if lenOK && h >= 16 && h <= 64 {
+		size := false
+		for _, sz := range l4openvpn.AuthDigestSizes {
+			size = vapi.Or(size, h == sz)
+		}
+		sid := false
+		for i := 1; i <= 8; i++ {
+			sid = vapi.Or(sid, body[i] != 0)
+		}
+		o := 9 + h
+		pid := uint32(body[o])<<24 | uint32(body[o+1])<<16 | uint32(body[o+2])<<8 | uint32(body[o+3])
+		ts := int64(uint32(body[o+4])<<24 | uint32(body[o+5])<<16 | uint32(body[o+6])<<8 | uint32(body[o+7]))
+		tsOK := ignoreTS || (ts > sec-15 && (ts < sec+15 || (ts == sec+15 && ns > 0)))
+		tail := body[o+8] == 0 && body[o+9] == 0 && body[o+10] == 0 && body[o+11] == 0 && body[o+12] == 0
+		wf = body[0] == 7<<3 && size && sid && pid == 1 && tsOK && tail
+	}
+	iff(matched, wf, "openvpn tls-auth")
+}
+func VH_openvpn_auth_tcp()    { ovpnAuth(false, true) }
+func VH_openvpn_auth_udp()    { ovpnAuth(true, true) }
+func VH_openvpn_auth_ts_udp() { ovpnAuth(true, false) }
+
 func VH_openvpn_plain_tcp() { ovpnPlain(false) }
 func VH_openvpn_plain_udp() { ovpnPlain(true) }
 
@@ -559,6 +603,7 @@ func VH_socks5_unsorted() {
 
 func init() {
 	for name, f := range map[string]func(){
+		"VH_openvpn_auth_tcp": VH_openvpn_auth_tcp, "VH_openvpn_auth_udp": VH_openvpn_auth_udp, "VH_openvpn_auth_ts_udp": VH_openvpn_auth_ts_udp,
 		"VH_rdp_corrinfo": VH_rdp_corrinfo, "VH_socks5_unsorted": VH_socks5_unsorted,
 		"VH_winbox": VH_winbox, "VH_winbox_romon": VH_winbox_romon, "VH_winbox_user": VH_winbox_user,
 		"VH_openvpn_plain_tcp": VH_openvpn_plain_tcp, "VH_openvpn_plain_udp": VH_openvpn_plain_udp, "VH_rdp_negreq": VH_rdp_negreq,
